@@ -151,20 +151,53 @@ theorem acc_strictReasons_minmax (k : String) (hk : k = "$min" ∨ k = "$max")
   rcases hk with rfl | rfl <;>
     simp [strictReasons, arithOps]
 
-/-- `$sum` / `$avg`: the grouping operator on the operand values (a missing one read as null) is
-    what the rules define — for every list of values, no hypothesis -/
+/-- as expression operators `$sum`, `$min`, `$max` are the grouping operators themselves; `$avg`
+    has no answer when `float()` would round its integer sum (`groupingInExpr`) -/
+theorem inExpr_not_avg (k : String) (h : ¬ k = "$avg") (xs : List Val) :
+    groupingInExpr k xs = groupingList k xs := by
+  simp [groupingInExpr, h]
+
+/-- `$sum`: the grouping operator on the operand values (a missing one read as null) is what the
+    rules define — for every list of values, no hypothesis -/
+theorem sum_eq (vs : List (Option Val)) : groupingInExpr "$sum" (nulled vs) = accS "$sum" vs := by
+  rw [inExpr_not_avg "$sum" (by decide)]
+  simp [accS, groupingList, numsOfNB_nulled, sumAll_eq]
+
+/-- `$avg` likewise -/
+theorem avg_eq (vs : List (Option Val)) : groupingInExpr "$avg" (nulled vs) = accS "$avg" vs := by
+  simp only [groupingInExpr, groupingList, accS, numsOfNB_nulled, sumAll_eq,
+    show ¬ ("$avg" = "$sum") by decide, if_false, if_true, decide_true, Bool.true_and]
+  cases hns : numbersOf vs with
+  | nil =>
+    have h0 : (PyNum.i 0).roundedByFloat = false := by decide
+    simp [sumNums, h0]
+  | cons n r =>
+    have hlen : (PyNum.f ((r.length : Int) + 1) 0).isZero = false := by
+      simp [PyNum.isZero]; omega
+    cases hs : sumNums (n :: r) (.i 0) with
+    | error e => simp [bind, Except.bind]
+    | ok t =>
+      cases hr : t.roundedByFloat with
+      | true => simp [bind, Except.bind, pyTrueDiv, hr, PyNum.isFloat, hlen]
+      | false =>
+        have hf : (PyNum.f ((r.length : Int) + 1) 0).roundedByFloat = false := rfl
+        simp [bind, Except.bind, pyTrueDiv, hr, hf]
+
 theorem sumavg_eq (k : String) (hk : k = "$sum" ∨ k = "$avg") (vs : List (Option Val)) :
-    groupingList k (nulled vs) = accS k vs := by
-  rcases hk with rfl | rfl <;> simp [accS, groupingList, numsOfNB_nulled, sumAll_eq]
+    groupingInExpr k (nulled vs) = accS k vs := by
+  rcases hk with rfl | rfl
+  · exact sum_eq vs
+  · exact avg_eq vs
 
 /-- `$min` / `$max`: likewise wherever no reason applies to a comparison between two of the
     values that are neither null nor missing -/
 theorem minmax_eq (k : String) (hk : k = "$min" ∨ k = "$max") (vs : List (Option Val))
-    (hr : pairwiseReasons (presentOf vs) = []) : groupingList k (nulled vs) = accS k vs := by
+    (hr : pairwiseReasons (presentOf vs) = []) : groupingInExpr k (nulled vs) = accS k vs := by
   have hns : ¬ k = "$sum" := by rcases hk with rfl | rfl <;> decide
   have hna : ¬ k = "$avg" := by rcases hk with rfl | rfl <;> decide
   have hdec : (decide (k = "$min") || decide (k = "$max")) = true := by
     rcases hk with rfl | rfl <;> decide
+  rw [inExpr_not_avg k hna]
   simp only [accS, groupingList, hns, hna, if_false, present_nulled, hdec, if_true]
   cases hp : presentOf vs with
   | nil => rfl
@@ -174,7 +207,7 @@ theorem minmax_eq (k : String) (hk : k = "$min" ∨ k = "$max") (vs : List (Opti
 
 theorem acc_eq (k : String) (hk : k = "$sum" ∨ k = "$avg" ∨ k = "$min" ∨ k = "$max")
     (vs : List (Option Val)) (hr : strictReasons k vs = []) :
-    groupingList k (nulled vs) = accS k vs := by
+    groupingInExpr k (nulled vs) = accS k vs := by
   rcases hk with h | h | h | h
   · exact sumavg_eq k (Or.inl h) vs
   · exact sumavg_eq k (Or.inr h) vs
@@ -183,7 +216,7 @@ theorem acc_eq (k : String) (hk : k = "$sum" ∨ k = "$avg" ∨ k = "$min" ∨ k
 
 theorem acc_pure (k : String) (hk : k = "$sum" ∨ k = "$avg" ∨ k = "$min" ∨ k = "$max")
     (vs : List (Option Val)) (hr : strictReasons k vs = []) (w : Val) (hs : accS k vs = .ok w) :
-    groupingList k (nulled vs) = .ok w := by
+    groupingInExpr k (nulled vs) = .ok w := by
   rw [acc_eq k hk vs hr, hs]
 
 /-! ### `{$op: [operands]}` -/
